@@ -363,25 +363,57 @@ def herd_feeds(index, fn):
 
 
 def bump_slots(index):
-    """the bump's own slots, read from its body: result k = X_k + ..., potential increase of X_k = minimum(X_k + inc, C_k) - X_k.
-    Returns (function, [(series parameter, ceiling parameter) per result])"""
+    """the bump's own slots: (function, [(series parameter, ceiling parameter) per result]).  Result k is the series it equals when nothing is
+    asked for (the routine evaluated with a zero increase returns its first two inputs unchanged); the ceiling of a series is the other
+    parameter named for the same use (biofuel / feed)."""
+    import ast as _ast
+    from .symx import Interp, Obj, Path, Unsupported, explore, Abort
+    from .rat import Rat
     bump_fn = index.func(PARAMS, "Parameters.increase_biofuels_then_feed")
+    cls = index.cls(PARAMS, "Parameters")
     bparams = [a.arg for a in bump_fn.args.args][1:]
-    binl = Inliner(bump_fn)
-    brets = [r for r in walk_no_nested(bump_fn) if isinstance(r, ast.Return)]
-    slots = []  # per result: (series parameter, ceiling parameter)
-    if len(brets) == 1 and isinstance(brets[0].value, ast.Tuple):
-        ceil = {}
-        for m_ in walk_no_nested(bump_fn):
-            if isinstance(m_, ast.Call) and dotted(m_.func) in ("np.minimum", "min") and len(m_.args) == 2:
-                x_, c_ = m_.args
-                if isinstance(x_, ast.BinOp) and isinstance(x_.op, ast.Add) and isinstance(x_.left, ast.Name) and isinstance(c_, ast.Name) \
-                        and x_.left.id in bparams and c_.id in bparams:
-                    ceil.setdefault(x_.left.id, set()).add(c_.id)
-        for e_ in brets[0].value.elts:
-            ee = binl.expr(e_)
-            base = ee.left.id if isinstance(ee, ast.BinOp) and isinstance(ee.op, ast.Add) and isinstance(ee.left, ast.Name) and ee.left.id in bparams else None
-            slots.append((base, next(iter(ceil[base])) if base in ceil and len(ceil[base]) == 1 else None))
+    inc_p = [p_ for p_ in bparams if "increase" in p_]
+    slots = []
+    if len(inc_p) == 1:
+        A = {p_: (Rat.const(0) if p_ == inc_p[0] else Rat.atom((p_,))) for p_ in bparams}
+
+        def run_el(it):
+            it.classes = {"Parameters": cls}
+
+            def hk(interp, d, a, kw, node):
+                if d in ("np.minimum", "np.maximum") and len(a) == 2 and all(isinstance(x, (Rat, Path)) for x in a):
+                    x, y = interp.to_rat(a[0]), interp.to_rat(a[1])
+                    le = interp.truth(interp.compare(_ast.LtE(), x, y, node), node)
+                    return (x if le else y) if d == "np.minimum" else (y if le else x)
+                if d == "np.where" and len(a) == 3:
+                    return a[1] if interp.truth(a[0], node) else a[2]
+                if d in ("np.zeros", "np.zeros_like"):
+                    return Rat.const(0)
+                if d == "len":
+                    return Rat.atom(("len",))
+                return NotImplemented
+
+            it.call_hook = hk
+            return it.call_function(bump_fn, [A[p_] for p_ in bparams], {}, Obj(cls, {}, "self"))
+
+        try:
+            leaves = [x for x in explore(run_el, month_classes=False) if not isinstance(x[2], Abort)]
+        except Unsupported:
+            leaves = []
+        # within the demands (series <= ceiling) a zero request changes nothing: the leaf taken under those conditions names the series
+        per_slot = [set(), set()]
+        for _, dec, res, it in leaves:
+            if isinstance(res, tuple) and len(res) == 2:
+                for k_ in range(2):
+                    v = it.to_rat(res[k_])
+                    m_ = [p_ for p_ in bparams if p_ != inc_p[0] and v == Rat.atom((p_,))]
+                    if m_:
+                        per_slot[k_].add(m_[0])
+        for k_ in range(2):
+            base = per_slot[k_].pop() if len(per_slot[k_]) == 1 else None
+            use = "biofuel" if base and "biofuel" in base else "feed" if base and "feed" in base else None
+            ceil = [p_ for p_ in bparams if use and use in p_ and p_ != base]
+            slots.append((base, ceil[0] if len(ceil) == 1 else None))
     return bump_fn, slots
 
 
